@@ -310,9 +310,17 @@ func checkLikeTranslator(c *core.Ctx, t *fnTable, ids map[string]int64) {
 	in2 := newLitInterp(c.Prog, t.info, "functions")
 	trObj := ""
 	in2.Hooks.Call = chainCall(func(st *absint.State, call *ast.CallExpr, callee string, recv absint.Val, args []absint.Val) (absint.Val, bool) {
-		if strings.HasPrefix(callee, "value:") && len(args) == 1 && callee != "value:needsEscaping" {
-			trObj = args[0].Canon()
-			return absint.Tuple{Elems: []absint.Val{absint.NN("REG"), absint.Nil{}}}, true
+		// the translation step: whatever is called (a local closure, a package-level function) that yields
+		// (*regexp.Regexp, error); the pattern it is given is the string argument
+		if tv, ok := t.info.Types[call]; ok && tv.Type != nil {
+			if tup, isTup := tv.Type.(*types.Tuple); isTup && tup.Len() == 2 && strings.HasSuffix(tup.At(0).Type().String(), "regexp.Regexp") && !strings.HasPrefix(callee, "regexp.") {
+				for _, a := range args {
+					if a != nil && strings.HasSuffix(a.Canon(), ".Str") {
+						trObj = a.Canon()
+					}
+				}
+				return absint.Tuple{Elems: []absint.Val{absint.NN("REG"), absint.Nil{}}}, true
+			}
 		}
 		if callee == "regexp.(*Regexp).MatchString" {
 			st.Emit("MATCH", call.Pos(), append([]absint.Val{recv}, args...)...)
